@@ -186,7 +186,7 @@ def hvsr_relations(run, h):
         azi = proc([rec], h.HvsrAzimuthalProcessingSettings(azimuths_in_degrees=az_list, **kw))
         stack = [proc([rec], h.HvsrTraditionalSingleAzimuthProcessingSettings(azimuth_in_degrees=a, **kw)).amplitude for a in az_list]
         for a, x, y in zip(az_list, azi.hvsrs, stack):
-            if not np.array_equal(x.amplitude, y):
+            if not np.allclose(x.amplitude, y, rtol=1e-12, atol=0.0):      # (to rounding: all azimuths may be rotated in one vectorised step)
                 run.violation("hvsr:azimuthal-is-stack", f"azimuthal result at {a} deg differs from the single-azimuth result", dict(kind="hvsr-rel", a=a))
         if list(azi.azimuths) != az_list:
             run.violation("hvsr:azimuthal-azimuths", f"azimuths {azi.azimuths}", dict(kind="hvsr-rel"))
@@ -199,7 +199,7 @@ def hvsr_relations(run, h):
                 continue
             for a, x in zip(azi_.azimuths, azi_.hvsrs):
                 y = proc([rec], h.HvsrTraditionalSingleAzimuthProcessingSettings(azimuth_in_degrees=float(a), **kw)).amplitude
-                if not np.array_equal(x.amplitude, y):
+                if not np.allclose(x.amplitude, y, rtol=1e-12, atol=0.0):
                     run.violation("hvsr:azimuthal-is-stack", f"azimuths given as {az_any}: the entry reported at {a} deg is not the single-azimuth result at {a} deg",
                                   dict(kind="hvsr-rel", a=float(a), az=az_any))
             run.case(("az-any", r_, tuple(az_any)))
